@@ -180,15 +180,9 @@ func (in *Interp) freshInternal(tag string, w int) *Term {
 
 func (in *Interp) freshBool(tag string) *Term { return in.freshInternal(tag, 0) }
 
-func (in *Interp) ndVars() []*Term {
-	var vs []*Term
-	for _, r := range in.path.nd {
-		if r.T != nil {
-			vs = append(vs, r.T)
-		}
-	}
-	return vs
-}
+// ndVars lists every variable of the path (nd values and engine-internal symbols): a model used for syntactic
+// feasibility shortcuts must assign all of them.
+func (in *Interp) ndVars() []*Term { return in.tc.vars }
 
 func (in *Interp) evalModel(c *Term) (uint64, bool) {
 	p := in.path
